@@ -93,6 +93,7 @@ def run_config(ctx, case, npts=None):
     if x is None or len(x) == 0:
         return
     x = np.ascontiguousarray(x, dtype=np.float64)
+    ctx.evaluated(len(x))
     ctx.api(f"{name}.forward")
     ctx.api(f"{name}.backward")
     try:
@@ -239,6 +240,7 @@ def run_softmax(ctx, t, case, rng):
         ctx.check("roundtrip.y", bool(np.all(erry <= 1e-6)),
                   "Softmax|regular|forward(backward(y))", case,
                   lambda: {"y": y.tolist(), "again": yb.tolist()})
+        ctx.evaluated(1)
         ctx.nontrivial("Softmax", x)
 
 
